@@ -1643,7 +1643,13 @@ class FlowIR(object):
                     'no': False,
                 }[s.lower()]
 
-            for key, convert in [ ('replicate', int), ('aggregate', to_bool)]:
+            def to_int(s):
+                # VV: int() truncates (2.5 -> 2): a number with a fractional part is not a valid number of replicas
+                if isinstance(s, float) and s.is_integer() is False:
+                    raise ValueError(s)
+                return int(s)
+
+            for key, convert in [ ('replicate', to_int), ('aggregate', to_bool)]:
                 label = '%s.workflowAttributes.%s' % (ref, key)
 
                 try:
